@@ -1,23 +1,24 @@
 ------------------------------- MODULE GenSci -------------------------------
-(* C13 instances: every combination of customers from small palettes (duplicate coordinates, a customer at the depot, zero demand,
+(* C13 instances: every combination of customers from small palettes (duplicate coordinates, negative coordinates sharing one component, a customer at the depot, zero demand,
    demand = capacity, point windows, zero / positive service) for the three grammars, rounded and unrounded distances. *)
 EXTENDS Scientific, Json, IOUtils
 Thorough == IOEnv.TIER = "thorough"
 Node(id, x, y, d, s, e, svc, rel) == [id |-> id, x |-> x, y |-> y, d |-> d, s |-> s, e |-> e, svc |-> svc, rel |-> rel]
 \* customer palette for Solomon: (x, y, demand, ready, due, service)
-SolPalette == { <<3, 4, 1, 0, 100, 0>>, <<3, 4, 5, 10, 20, 10>>, <<6, 8, 0, 0, 100, 5>>, <<0, 0, 2, 0, 0, 0>>, <<1, 1, 3, 50, 60, 10>>, <<7, 1, 4, 0, 30, 2>> }
+SolPalette == { <<3, 4, 1, 0, 100, 0>>, <<3, 4, 5, 10, 20, 10>>, <<6, 8, 0, 0, 100, 5>>, <<0, 0, 2, 0, 0, 0>>, <<1, 1, 3, 50, 60, 10>>, <<7, 1, 4, 0, 30, 2>>,
+                <<0 - 3, 0 - 4, 2, 0, 100, 0>>, <<5, 0 - 4, 1, 0, 100, 3>> }
                 \cup (IF Thorough THEN { <<2, 9, 6, 5, 90, 1>>, <<9, 9, 1, 95, 100, 0>> } ELSE {})
 SolCusts(n) == { [i \in 1..n |-> Node(i, c[i][1], c[i][2], c[i][3], c[i][4], c[i][5], c[i][6], 0)] : c \in [1..n -> SolPalette] }
 Solomon == { [fmt |-> "solomon", rounded |-> r, k |-> k, q |-> q, depot |-> Node(0, 0, 0, 0, 0, 100, 0, 0), custs |-> cs] :
              r \in BOOLEAN, k \in {1, 3}, q \in {5, 6}, cs \in UNION { SolCusts(n) : n \in 1..(IF Thorough THEN 3 ELSE 2) } }
            \cup { [fmt |-> "solomon", rounded |-> TRUE, k |-> 2, q |-> 5, depot |-> Node(0, 2, 2, 0, 5, 80, 0, 0), custs |-> cs] : cs \in SolCusts(3) }
 \* TSPLIB: node numbers start at 1; the depot is node 1 or the last node; (x, y, demand)
-TspPalette == { <<3, 4, 1>>, <<3, 4, 5>>, <<6, 8, 0>>, <<0, 0, 2>>, <<1, 1, 3>> }
+TspPalette == { <<3, 4, 1>>, <<3, 4, 5>>, <<6, 8, 0>>, <<0, 0, 2>>, <<1, 1, 3>>, <<0 - 3, 0 - 4, 1>>, <<5, 0 - 4, 2>> }
 TspCusts(n, first) == { [i \in 1..n |-> Node(first + i - 1, c[i][1], c[i][2], c[i][3], 0, Horizon, 0, 0)] : c \in [1..n -> TspPalette] }
 Tsplib == UNION { { [fmt |-> "tsplib", rounded |-> r, k |-> n + 1, q |-> q, depot |-> Node(IF dfirst THEN 1 ELSE n + 1, 0, 0, 0, 0, Horizon, 0, 0), custs |-> cs] :
                     r \in BOOLEAN, q \in {5, 9}, cs \in TspCusts(n, IF dfirst THEN 2 ELSE 1) } : n \in 1..3, dfirst \in BOOLEAN }
 \* Li&Lim: pairs (pickup, delivery); ids 1..2m in file order pickup1, delivery1, pickup2, ...; (x, y, ready, due, service)
-LlPalette == { <<3, 4, 0, 100, 0>>, <<6, 8, 10, 40, 10>>, <<0, 0, 0, 100, 5>>, <<1, 1, 20, 90, 0>> }
+LlPalette == { <<3, 4, 0, 100, 0>>, <<6, 8, 10, 40, 10>>, <<0, 0, 0, 100, 5>>, <<1, 1, 20, 90, 0>>, <<0 - 3, 0 - 4, 0, 100, 0>>, <<5, 0 - 4, 0, 100, 5>> }
 LlPairs(m) == { [i \in 1..(2 * m) |-> LET pr == (i + 1) \div 2 pick == (i % 2 = 1) c == IF pick THEN ps[pr][1] ELSE ps[pr][2] IN
                    Node(i, c[1], c[2], IF pick THEN ps[pr][3] ELSE 0 - ps[pr][3], c[3], c[4], c[5], IF pick THEN i + 1 ELSE i - 1)] :
                 ps \in [1..m -> LlPalette \X LlPalette \X {1, 3}] }
